@@ -143,6 +143,11 @@ def cases(rng, tier):
                       target=rstr(rng, 0, 6),
                       thread=rstr(rng, 0, 6, nul=False) if rng.chance(2, 3) else None,
                       mdc=rmdc(rng, rng.below(5))))
+    # 3c. the MDC entries are inserted by the MESSAGE while it is formatted (10th element 1; empty history as 9th)
+    for _ in range(150 if tier == "quick" else 2000):
+        base = rng.choice(out)
+        if base[7] and base[1]:
+            out.append(list(base[:8]) + [[], 1])
     # 3b. histories of failed encodes on the same thread before the observed one
     for i in range(300 if not thorough else 3000):
         hist = [rng.choice([0, 0, 1, 2, 8, 9, 10, rng.below(60), rng.below(400)]) for _ in range(rng.range(1, 3))]
